@@ -6,6 +6,7 @@ from ..core.absint import AbsRaise
 from ..core.loader import AnalysisError
 from ..core.models import lin, _ladd
 from ..core.table import extract, grid_compare, inexact_notes
+from ..core.termeval import ev
 from ..core.values import K, T, Obj, TupleV, AbsFunc, ExtRef, show
 
 MOD = 'fileutils'
@@ -36,6 +37,60 @@ def _failing(names, holder, count=None):
             return T('ret', name, interp.fresh_n)
         return NotImplemented
     return hook
+
+
+# what the path names when the call is made: the stat-family predicates of
+# the source are answered from this one abstract fact
+KIND = T('sym', 'path_kind')
+KINDS = ('directory', 'regular file', 'link to a directory',
+         'link to a file', 'dangling link', 'nothing')
+_FOLLOW = {'directory': 'dir', 'regular file': 'file',
+           'link to a directory': 'dir', 'link to a file': 'file',
+           'dangling link': None, 'nothing': None}
+_NOFOLLOW = {'directory': 'dir', 'regular file': 'file',
+             'link to a directory': 'link', 'link to a file': 'link',
+             'dangling link': 'link', 'nothing': None}
+_FS_CALLS = {'os.path.isdir': lambda k: _FOLLOW[k] == 'dir',
+             'os.path.isfile': lambda k: _FOLLOW[k] == 'file',
+             'os.path.exists': lambda k: _FOLLOW[k] is not None,
+             'os.path.lexists': lambda k: _NOFOLLOW[k] is not None,
+             'os.path.islink': lambda k: _NOFOLLOW[k] == 'link'}
+_MODE_TESTS = {'stat.S_ISDIR': 'dir', 'stat.S_ISREG': 'file',
+               'stat.S_ISLNK': 'link'}
+
+
+def _fs_model(inner):
+    """on_call hook answering stat-family questions about ``path`` from
+    KIND; everything else goes to *inner*."""
+    def hook(interp, name, f, args, kwargs):
+        if name in _FS_CALLS:
+            t = T('fs', name, KIND)
+            interp.types[t] = 'bool'
+            return t
+        if name in ('os.stat', 'os.lstat'):
+            follow = name == 'os.stat' and \
+                kwargs.get('follow_symlinks', K(True)) != K(False)
+            return Obj(None, {'st_mode': T('fs', 'mode', K(follow), KIND)},
+                       label='stat_result')
+        if name in _MODE_TESTS and args:
+            t = T('fs', name, interp.termify(args[0]))
+            interp.types[t] = 'bool'
+            return t
+        return inner(interp, name, f, args, kwargs)
+    return hook
+
+
+def _fs_hook(v, val):
+    if isinstance(v, T) and v.op == 'fs':
+        if v.args[0] in _FS_CALLS:
+            return _FS_CALLS[v.args[0]](val[KIND])
+        if v.args[0] == 'mode':
+            table = _FOLLOW if v.args[1].v else _NOFOLLOW
+            return ('mode', table[val[KIND]])
+        if v.args[0] in _MODE_TESTS:
+            m = ev(v.args[1], val, [_fs_hook])
+            return isinstance(m, tuple) and m[1] == _MODE_TESTS[v.args[0]]
+    return NotImplemented
 
 
 def _same_exception(rep, rule, key, outcomes):
@@ -88,21 +143,21 @@ def _ensure_tree(ctx):
         return interp.call(f, [T('sym', 'path')])
 
     def setup(interp):
-        interp.on_call = _failing({'os.makedirs'}, holder)
-        interp.pure_calls.add('os.path.isdir')
+        interp.on_call = _fs_model(_failing({'os.makedirs'}, holder))
 
     outcomes, _i = extract(world, thunk, setup=setup)
 
     def oracle(v):
         if not v['fails']:
             return ('return', None)
-        if v['errno'] == errno.EEXIST and v['os.path.isdir(path)']:
+        if v['errno'] == errno.EEXIST and v['path_kind'] in (
+                'directory', 'link to a directory'):
             return ('return', None)
         return ('raise', 'OSError')
     grid_compare(rep, 'R20.1', 'ensure_tree', 'os.makedirs outcome x errno '
-                 'x isdir', outcomes,
-                 {RAISES: (False, True), ERRNO: ERRNOS,
-                  ISDIR: (False, True)}, oracle)
+                 'x what the path names', outcomes,
+                 {RAISES: (False, True), ERRNO: ERRNOS, KIND: KINDS}, oracle,
+                 hooks=[_fs_hook])
     _same_exception(rep, 'R20.1', 'ensure_tree', outcomes)
     for o in outcomes:
         mk = o.calls('os.makedirs')
